@@ -161,11 +161,52 @@ Spellings == <<
   [raw |-> <<9>>, val |-> <<9>>], [raw |-> <<47, 47, 120>>, val |-> <<47, 47, 120>>], [raw |-> <<47, 42>>, val |-> <<47, 42>>],
   [raw |-> <<92, 92, 110>>, val |-> <<92, 110>>], [raw |-> <<92, 116, 92, 114, 92, 110, 92, 48, 92, 34>>, val |-> <<9, 13, 10, 0, 34>>] >>
 
+\* ------------------------------------------------------------------ C08: policies to marshal
+\* every (parent, position, child) triple again with operands that evaluate: numbers and booleans
+DepthWith(x, y, z) == Flat([p \in 1..NForms |-> Flat([k \in 1..Arity(p) |->
+             [c \in 1..NForms |-> Form(p, IF k = 1 THEN Form(c, x, y, z) ELSE x, IF k = 2 THEN Form(c, x, y, z) ELSE y,
+                                       IF k = 3 THEN Form(c, x, y, z) ELSE z)]])])
+TypedExprs == DepthWith(V(VInt(7)), V(VInt(2)), V(VInt(3))) \o DepthWith(V(VTrue), V(VFalse), V(VTrue))
+\* value nodes that only a program or the JSON decoder can build: sets, records, extension values
+WSet(s) == [k |-> "set", els |-> s]
+OddRec == VRec([n \in {"k", "a b", "if", "", "~{22}", "~{e9}", "true"} |-> VInt(1)])
+IpVals == LET ps == [i \in DOMAIN IpLits |-> ParseIP(IpLits[i])] IN SelectSeq(ps, LAMBDA r : r.ok)
+ValueLeaves ==
+  << WSet(<<VInt(1), VInt(-2), VStr(<<97>>)>>), WSet(<<>>), WSet(<<WSet(<<VTrue>>), WSet(<<>>)>>), OddRec, EmptyRec,
+     VRec([k |-> WSet(<<VRec([n |-> VInt(-1)])>>)]), WSet(<<VEnt(<<"U">>, "a"), VEnt(<<"NS", "T">>, "~{22}")>>),
+     VEnt(<<"U">>, "~{e9}"), VEnt(<<"U">>, "~{22}") >>
+  \o [i \in DOMAIN DecB |-> VDec(DecB[i])] \o [i \in DOMAIN DtB |-> VDt(DtB[i])] \o [i \in DOMAIN DurB |-> VDur(DurB[i])]
+  \o [i \in DOMAIN IpVals |-> IpVals[i].v] \o [i \in DOMAIN LongB |-> VLong(LongB[i])]
+ValueExprs ==
+  Flat([i \in DOMAIN ValueLeaves |-> LET v == V(ValueLeaves[i]) IN
+         << v, Bin("eq", v, v), [op |-> "access", a |-> v, attr |-> "k"], [op |-> "has", a |-> v, attr |-> "a b"],
+            Bin("contains", v, V(VInt(1))), [op |-> "ext", fn |-> "lessThan", args |-> <<v, v>>],
+            [op |-> "ext", fn |-> "toDate", args |-> <<v>>], [op |-> "ext", fn |-> "isIpv4", args |-> <<v>>],
+            [op |-> "ext", fn |-> "toDays", args |-> <<v>>], Un("neg", v), Bin("sub", V(VInt(1)), v),
+            [op |-> "set", els |-> <<v, v>>], [op |-> "rec", kv |-> <<[key |-> "a b", val |-> v]>>],
+            [op |-> "like", a |-> v, pat |-> <<-1>>], Bin("in", v, v), [op |-> "is", a |-> v, ty |-> <<"U">>] >>])
+AnnoPolicies == [s \in DOMAIN StrB |->
+   [effect |-> "forbid", annos |-> <<[k |-> "id", v |-> StrB[s]], [k |-> "if", v |-> StrB[s] \o StrB[s]]>>,
+    principal |-> ScopeAll, action |-> ScopeAll, resource |-> ScopeAll, conds |-> <<>>]]
+MarshalPolicies == Policies \o AnnoPolicies \o [i \in DOMAIN ValueExprs |-> WhenP(ValueExprs[i])]
+                   \o [i \in DOMAIN TypedExprs |-> WhenP(TypedExprs[i])]
+\* policy sets: ids in lexicographic (byte) order; windows of the universe under every id assignment pattern
+IdOrder == <<"", "A", "B", "a", "a b", "b", "policy1", "policy10", "policy2", "~{e9}">>
+SetPolicies == ScopePolicies \o [f \in 1..NForms |-> WhenP(Rep(f))]
+SetCase(i) ==
+  LET n == 2 + (i % 3)
+      ids == [k \in 1..n |-> ((i * 7 + k * 3) % Len(IdOrder)) + 1]       \* distinct for n <= 4 (3 is invertible mod 10)
+      pols == [k \in 1..n |-> SetPolicies[((i + k * 11) % Len(SetPolicies)) + 1]]
+  IN [op |-> "marshalset", parts |-> TRUE, envset |-> "S",
+      items |-> [k \in 1..n |-> [id |-> IdOrder[ids[k]], rank |-> ids[k], policy |-> pols[k]]]]
+NSetCases == 3 * Len(SetPolicies)
+
 \* ------------------------------------------------------------------ state space
 VARIABLES idx, out
 vars == <<idx, out>>
 
-NCases == IF Mode = "ast" THEN Len(Policies) + Len(Spellings) ELSE Len(MutSeeds) + 1
+NCases == IF Mode = "ast" THEN Len(Policies) + Len(Spellings)
+          ELSE IF Mode = "marshal" THEN Len(MarshalPolicies) + NSetCases ELSE Len(MutSeeds) + 1
 Init == idx \in 1..NCases /\ out = <<>>
 
 Exp(ts) == LET r == ParsePolicyList(ts) IN IF r.ok THEN [ok |-> TRUE, policies |-> r.v] ELSE [ok |-> FALSE]
@@ -179,6 +220,12 @@ CaseOf(i) ==
        ELSE LET s == Spellings[i - Len(Policies)] IN
             << [op |-> "parse", name |-> <<"spelling", i - Len(Policies)>>, tokens |-> PolToks(<<S(s.raw), Op("=="), IntT(<<1>>)>>),
                 exp |-> [ok |-> TRUE, policies |-> <<WhenP(Bin("eq", V(VStr(s.val)), V(VInt(1))))>>]] >>
+  ELSE IF Mode = "marshal"
+  THEN IF i <= Len(MarshalPolicies)
+       THEN LET p == MarshalPolicies[i] IN
+            [v \in 1..(IF i <= Len(Policies) + Len(AnnoPolicies) + Len(ValueExprs) THEN 3 ELSE 1) |->
+               [op |-> "marshal", policy |-> p, via |-> <<"ast", "json", "text">>[v], parts |-> TRUE, envset |-> "S"]]
+       ELSE << SetCase(i - Len(MarshalPolicies)) >>
   ELSE IF i <= Len(MutSeeds)
        THEN LET ms == Mutants(RenderPolicy(MutSeeds[i], FALSE)) IN
             [m \in DOMAIN ms |-> [op |-> "parse", name |-> <<"mutant", i, m>>, tokens |-> ms[m], exp |-> Exp(ms[m])]]
@@ -192,6 +239,10 @@ RoundTrip ==
   (Mode = "ast" /\ out # <<>> /\ idx <= Len(Policies)) =>
      /\ ParsePolicy(RenderPolicy(Policies[idx], FALSE)) = [ok |-> TRUE, v |-> Policies[idx]]
      /\ ParsePolicy(RenderPolicy(Policies[idx], TRUE)) = [ok |-> TRUE, v |-> Policies[idx]]
+\* M1: the lexer reads back every spelled token sequence of the universe
+LexRoundTrip ==
+  (Mode = "ast" /\ out # <<>> /\ idx <= Len(Policies)) =>
+     \A k \in DOMAIN out : Lex(Spell(out[k].tokens)) = [ok |-> TRUE, toks |-> out[k].tokens]
 NamedRejected == (Mode = "mutants" /\ out # <<>> /\ idx = Len(MutSeeds) + 1) => \A n \in DOMAIN out : ~out[n].exp.ok
 
 Opts == [format |-> "TXT", charset |-> "UTF-8", openOptions |-> <<"WRITE", "CREATE", "APPEND">>]
